@@ -109,12 +109,16 @@ bool descend(const std::string &name, int levels)
   return true;
 }
 
-CaseResult run_case(Tape &t, long)
+// One launch. Up to two run in the same process with independently generated
+// arguments, environment and directories: nothing remembered from an earlier
+// start (a cached environment or working directory, say) may leak into a later
+// one.
+CaseResult one_round(Tape &t, int round)
 {
   CaseResult res;
-  vs_init();
   vs_reset();
-  const std::string root = fw::case_dir();
+  const std::string root = fw::case_dir() + "/r" + std::to_string(round);
+  mkdir(root.c_str(), 0755);
   Puppet pup(root + "/ctl");
   if (!pup.error().empty()) {
     res.inconclusive("puppet setup: " + pup.error());
@@ -426,6 +430,31 @@ CaseResult run_case(Tape &t, long)
   std::string lp = ledger_problems(fds_before, sig);
   if (!lp.empty()) res.fail(sig, "after destroy: " + lp);
   return res;
+}
+
+CaseResult run_case(Tape &t, long)
+{
+  vs_init();
+  int rounds = t.chance(1, 3) ? 2 : 1;
+  CaseResult all;
+  std::vector<std::string> descs;
+  uint64_t h = 0;
+  for (int r = 0; r < rounds; r++) {
+    CaseResult one = one_round(t, r);
+    descs.push_back(one.describe);
+    h = mix(h, one.hash);
+    all.nontrivial = all.nontrivial || one.nontrivial;
+    for (auto &c : one.classes) all.classes.push_back(c);
+    if (one.kind == CaseResult::FAIL) {
+      all.fail(one.sig, "launch #" + std::to_string(r + 1) + " of " + std::to_string(rounds) + " in this process: " + one.msg);
+      break;
+    }
+    if (one.kind == CaseResult::INCONCLUSIVE && all.kind == CaseResult::PASS) all.inconclusive(one.msg);
+  }
+  if (rounds > 1) all.cls("two-launches-in-one-process");
+  all.hash = mix(h, (uint64_t) rounds);
+  all.describe = J().kv("launches", rounds).raw("rounds", jarr(descs)).str();
+  return all;
 }
 
 }  // namespace
